@@ -637,6 +637,19 @@ RULES = {
     "R30c": Rule("R30c", "bytes.last().cloned().unwrap_or(0) -> __last_or_zero(&bytes)", "bytes . last ( ) . cloned ( ) . unwrap_or ( 0 )", "__last_or_zero ( & bytes )"),
     "R30d": Rule("R30d", "bytes.first().cloned().unwrap_or(0) -> __first_or_zero(&bytes)", "bytes . first ( ) . cloned ( ) . unwrap_or ( 0 )", "__first_or_zero ( & bytes )"),
     "R30e": Rule("R30e", "Vec::from(digits) (digits: &[u8]) -> digits.to_vec()  (std: `impl From<&[T]> for Vec<T>` is `s.to_vec()`)", "Vec :: from ( digits )", "digits . to_vec ( )"),
+    "R36a": Rule("R36a", "if let Some(&0) = S.last() { -> if __slice_last_is_zero(S) {  (pattern semantics: S non-empty and its last element equals 0)",
+                 "if let Some ( & 0 ) = $v . last ( ) {", "if __slice_last_is_zero ( $v ) {"),
+    "R36b": Rule("R36b", "if let Some(&0) = S.first() { -> if __slice_first_is_zero(S) {  (pattern semantics: S non-empty and its first element equals 0)",
+                 "if let Some ( & 0 ) = $v . first ( ) {", "if __slice_first_is_zero ( $v ) {"),
+    "R36c": Rule("R36c", "S.iter().rposition(|&x| x != 0).map_or(0, |i| i + 1) -> __rposition_nonzero_end(S)  (std: index of the last non-zero element plus one, 0 if there is none)",
+                 "$v . iter ( ) . rposition ( | & x | x != 0 ) . map_or ( 0 , | i | i + 1 )", "__rposition_nonzero_end ( $v )"),
+    "R36d": Rule("R36d", "S.iter().position(|&d| d != 0) -> __position_nonzero(S)  (std: index of the first non-zero element, None if none)",
+                 "$v . iter ( ) . position ( | & d | d != 0 )", "__position_nonzero ( $v )"),
+    "R36e": Rule("R36e", "for (i, xi) in x.iter().enumerate() { BODY } -> { let mut i__ = 0; while i__ < x.len() { let i = i__; let xi = &x[i__]; i__ += 1; BODY } }  (std: enumerate over a slice iterator yields (index, &element) in order)",
+                 "for ( $i , $e ) in $v . iter ( ) . enumerate ( ) { $$body }",
+                 "{ let mut i__ = 0 ; while i__ < $v . len ( ) { let $i = i__ ; let $e = & $v [ i__ ] ; i__ += 1 ; $$body } }"),
+    "R3asa": Rule("R3asa", "*self = n + other; -> *self = Add::add(n, other);", "* self = n + other ;", "* self = Add :: add ( n , other ) ;"),
+    "R3ass": Rule("R3ass", "*self = n - other; -> *self = Sub::sub(n, other);", "* self = n - other ;", "* self = Sub :: sub ( n , other ) ;"),
     "R16v": Rule("R16v", "Ord::cmp(&bit, &trailing_zeros) -> __u64_cmp(bit, trailing_zeros)  (std: total order on u64)",
                  "Ord :: cmp ( & bit , & trailing_zeros )", "__u64_cmp ( bit , trailing_zeros )"),
     "R0p": Rule("R0p", "crate::big_digit::BITS -> big_digit::BITS  (path of the same constant inside the unit's module)",
